@@ -679,12 +679,12 @@ ElemNumber::getPreviousNode(
                 next = pos->getParentNode();
 
                 if(0 != next &&
-                   next->getNodeType() == XalanNode::DOCUMENT_NODE ||
-                   (0 != fromMatchPattern &&
+                   (next->getNodeType() == XalanNode::DOCUMENT_NODE ||
+                    (0 != fromMatchPattern &&
                         fromMatchPattern->getMatchScore(
                             next,
                             *this,
-                            executionContext) != XPath::eMatchScoreNone))
+                            executionContext) != XPath::eMatchScoreNone)))
                 {
                     pos = 0; // return 0 from function.
 
